@@ -149,6 +149,9 @@ def run(R, tier):
             ok = bool(ps) and all(p.outcome == "Err(<lexer-error>)" and p.consumed == [] for p in ps)
             R.check(ok, "R05.10", "%s[ERR]" % fn, "the error is reported to the handler and nothing is consumed", "a lexical error in the parameter list is consumed by Parameters::%s (%s): the message could go on after it" % (fn, "; ".join("%s consumed %s" % (p.outcome, p.consumed) for p in ps)))
     R.floor("R05.10", "lexer-error rows of the Parameters tables", n_e, 2)
+    # ---- R05.11 whole messages: the unit that fails ends the message, whatever the reason and wherever it stands --------------------
+    from . import msgtable as MT
+    MT.check(R, "R05.11", "abort", tier, "Node::run on whole messages against a concrete tree with scripted handlers: units run left to right once each; at the first failure (handler error, undefined header, missing / surplus parameter, lexical error) nothing later runs, the call returns that error and the error hook is given exactly it, once; never on success", 60)
 
     # ---- R05.6 response unit latch -------------------------------------------------------------------------------------
     ru_adt = "scpi::parser::response::ResponseUnit"
